@@ -71,7 +71,11 @@ func genC19(t *rapid.T) c19Case {
 		switch rapid.IntRange(0, 10).Draw(t, "kind") {
 		case 10:
 			cc.Rejected = true
-			if rapid.Bool().Draw(t, "rejectedbymatcher") {
+			if rapid.IntRange(0, 2).Draw(t, "invalidwithmatcher") == 0 {
+				// not JSON, although lenient readers find the member a matcher addresses: rejected as invalid all the same
+				cc.Call = Call{API: "sjson", Doc: BS(rapid.SampledFrom([]string{`{"id": 1, "latency": NaN}`, `{"id":1,"rows":[1,2`, `{"id": 7, "at": 2026-01-02}`, `{"id":1}}`, `{"id":1} trailing`}).Draw(t, "lenient")),
+					Form: rapid.SampledFrom([]string{"string", "bytes"}).Draw(t, "form"), Matchers: []MatcherSpec{{Kind: rapid.SampledFrom([]string{"any", "custom"}).Draw(t, "mkind"), Paths: []string{"id"}, Return: json.RawMessage(`"x"`)}}}
+			} else if rapid.Bool().Draw(t, "rejectedbymatcher") {
 				cc.Call = Call{API: "sjson", Doc: `{"a":1}`, Form: "string", Matchers: []MatcherSpec{{Kind: "any", Paths: []string{"no.such.path"}}}}
 			} else {
 				cc.Call = Call{API: "sjson", Doc: BS(rapid.SampledFrom([]string{"{", "", "{\"a\":1}}", "not json"}).Draw(t, "invalidjson")), Form: rapid.SampledFrom([]string{"string", "bytes"}).Draw(t, "form")}
